@@ -90,6 +90,10 @@ func (d DateTime) MarshalUT0311L0x() ([]byte, error) {
 		return []byte{}, fmt.Errorf("unknown error encoding datetime %v to BCD", d)
 	}
 
+	if len(*encoded) != 7 {
+		return []byte{}, fmt.Errorf("datetime %v cannot be encoded as 7 BCD bytes", d)
+	}
+
 	return *encoded, nil
 }
 
